@@ -566,3 +566,37 @@ func ZZH_C17_retained_admin_not_up_for_grabs() {
 	w.getObj(zzRoleAddr, RoleKey(victim), &after)
 	zz.Assert("C17.retained.admin-keeps-its-chain", after.AppchainID == before.AppchainID && after.Status == before.Status)
 }
+
+// ZZH_C17_tm_called_by_other_contracts: the transaction manager's entry points (Begin,
+// BeginMultiTXs, BeginInterBitXHub, Report) accept exactly one invoking contract, the one at the
+// interchain address. Called with any other built-in contract's address as the current caller -
+// the transaction manager's own address included (an IBTP transaction addressed to a contract
+// other than the interchain contract runs the interchain code under that contract's address) -
+// they refuse and write nothing.
+func ZZH_C17_tm_called_by_other_contracts() {
+	w, cs := zzFullWorld()
+	w.audit = zz.Choice("audit", 2) == 1
+	callers := []string{zzTMAddr, zzServiceAddr, zzAppchainAddr, zzGovAddr, zzRoleAddr, zzNodeAddr, zzInterchainAddr}
+	ci := zz.Choice("currentCaller", len(callers))
+	id := "1356:chA:s1-1356:chB:s2-9"
+	var method string
+	var args []*pb.Arg
+	switch zz.Choice("entry", 4) {
+	case 0:
+		method, args = "Begin", []*pb.Arg{pb.String(id), pb.Uint64(5), pb.Bool(false)}
+	case 1:
+		method, args = "BeginMultiTXs", []*pb.Arg{pb.String("0xGROUP9"), pb.String(id), pb.Uint64(5), pb.Bool(false), pb.Uint64(2)}
+	case 2:
+		method, args = "BeginInterBitXHub", []*pb.Arg{pb.String(id), pb.Uint64(5), pb.Bytes(nil), pb.Bool(false)}
+	case 3:
+		method, args = "Report", []*pb.Arg{pb.String(id), pb.Int32(int32(pb.IBTP_RECEIPT_SUCCESS))}
+	}
+	snap := w.snapshot()
+	before := w.effects
+	_, err := zzInvoke(w, cs[zzTMAddr], zzTMAddr, callers[ci], method, args)
+	if callers[ci] == zzInterchainAddr {
+		zz.Cover("C17.tm.designated-caller-accepted", err == nil)
+		return
+	}
+	zz.Assert("C17.tm.any-other-contract-refused-without-effect:"+method, err != nil && w.effects == before && w.unchanged(snap))
+}
